@@ -146,9 +146,9 @@ def guess_carried_scalar_type(col) -> type:
     good_idx = numpy.where(
         numpy.logical_not(data_algebra.data_model.default_data_model().pd.isna(col))
     )[0]
-    test_idx = 0
-    if len(good_idx) > 0:
-        test_idx = good_idx[0]
+    if len(good_idx) < 1:
+        return type(None)  # no non-missing entry to take a type from
+    test_idx = good_idx[0]
     return map_type_to_canonical(type(col[test_idx]))
 
 
